@@ -22,6 +22,12 @@ impl ReadBuffer {
         self.end - self.begin
     }
 
+    /// discard any unread data
+    pub(crate) fn clear(&mut self) {
+        self.begin = 0;
+        self.end = 0;
+    }
+
     pub(crate) fn is_empty(&self) -> bool {
         self.begin == self.end
     }
